@@ -11,7 +11,7 @@
 //             in <hex> / g <interp> <inputlen> <edge starts> <last vertex type> / gi <start> <syll> <end> <type> <cred bits>
 //             lk <predict> / L <end> <texthex> <code ids> <weight double bits> <matching_code_size> <remaining_code_length>
 //             pv <len> <sid:type,...|-> / px <len> <sid:type,...|->   (table)
-//             c <type> <start> <end> <texthex> <commenthex> / endin
+//             c <type> <start> <end> <texthex> <commenthex> [<code ids> <weight double bits> <matching_code_size>] / endin
 #include "hcommon.h"
 #include <fstream>
 #include <sstream>
@@ -187,8 +187,16 @@ int main(int argc, char** argv) {
             for (size_t i = 0; i < 100000; ++i) {
               auto cand = seg.GetCandidateAt(i);
               if (!cand) break;
-              printf("c %s %zu %zu %s %s\n", cand->type().c_str(), cand->start(), cand->end(), hex(cand->text()).c_str(),
-                     hex(cand->comment()).c_str());
+              // what the candidate is made of, when it is a dictionary phrase: code, weight, matching_code_size (0 = exact)
+              auto genuine = Candidate::GetGenuineCandidate(cand);
+              auto ph = As<Phrase>(genuine);
+              if (ph)
+                printf("c %s %zu %zu %s %s %s %016llx %d\n", cand->type().c_str(), cand->start(), cand->end(), hex(cand->text()).c_str(),
+                       hex(cand->comment()).c_str(), ids(ph->code()).c_str(), (unsigned long long)dbits(ph->weight()),
+                       ph->entry().matching_code_size);
+              else
+                printf("c %s %zu %zu %s %s\n", cand->type().c_str(), cand->start(), cand->end(), hex(cand->text()).c_str(),
+                       hex(cand->comment()).c_str());
             }
           }
         } else {
